@@ -358,3 +358,159 @@ Theorem broadcast_replays_pf next pending f : leaders_valid pending ->
   f_cache (fold_left apply_msg (run_server_batches (S (length pending)) next pending) f) =
   fold_left check_and_put pending (f_cache f).
 Proof. intros Hv. rewrite cache_apply_msgs, broadcast_decodes_pf by exact Hv. reflexivity. Qed.
+
+(* ---------- full synchronisation into a follower that already holds older versions of the same regions ---------- *)
+Definition rid (r : rinfo) : Z := m_id (meta r).
+
+Lemma region_set_spec : forall l, region_set l ->
+  NoDup (map rid l) /\
+  forall a b, In a l -> In b l -> rid a <> rid b -> intersects (meta a) (meta b) = false.
+Proof.
+  induction l as [|r l IH]; intros H; [split; [constructor|intros a b []]|].
+  destruct H as [Hr Hl]. destruct (IH Hl) as [N P]. split.
+  - cbn [map]. constructor; [|exact N]. intros Hin. apply in_map_iff in Hin as (o & E & Ho).
+    destruct (Hr o Ho) as [Hne _]. unfold rid in E. congruence.
+  - intros a b [<-|Ha] [<-|Hb] Hne.
+    + congruence.
+    + exact (proj2 (Hr b Hb)).
+    + rewrite intersects_sym. exact (proj2 (Hr a Ha)).
+    + apply P; assumption.
+Qed.
+
+Lemma intersects_same_range a a' b : same_range a a' = true ->
+  intersects a b = intersects a' b /\ intersects b a = intersects b a'.
+Proof.
+  unfold same_range, intersects. intros H. apply andb_true_iff in H as [H1 H2].
+  apply Z.eqb_eq in H1. apply Z.eqb_eq in H2. rewrite H1, H2. split; reflexivity.
+Qed.
+
+(* every old entry is an older version (same id, same range, epochs not larger) of a region the leader holds *)
+Definition older_versions (old regions : list rinfo) : Prop :=
+  forall o, In o old -> exists r, In r regions /\ rid o = rid r /\ same_range (meta o) (meta r) = true /\
+                                  m_version (meta o) <= m_version (meta r) /\ m_confver (meta o) <= m_confver (meta r).
+
+Definition not_in (done : list rinfo) (o : rinfo) : bool := negb (existsb (fun d => rid d =? rid o) done).
+
+Lemma find_id_none c id : (forall x, In x c -> rid x <> id) -> find_id c id = None.
+Proof.
+  intros H. unfold find_id. destruct (find _ c) as [x|] eqn:E; [|reflexivity].
+  apply find_some in E as [Hx E]. apply Z.eqb_eq in E. exfalso. exact (H x Hx E).
+Qed.
+
+Lemma filter_none {X} (f : X -> bool) l : (forall x, In x l -> f x = false) -> filter f l = [].
+Proof.
+  induction l as [|x l IH]; intros H; cbn [filter]; [reflexivity|].
+  rewrite (H x (or_introl eq_refl)). apply IH. intros y Hy. apply H. right. exact Hy.
+Qed.
+
+Lemma stale_cache_step regions old done r rest :
+  regions = done ++ r :: rest -> region_set regions -> region_set old -> older_versions old regions ->
+  let c := rev done ++ filter (not_in done) old in
+  check_and_put c r = rev (done ++ [r]) ++ filter (not_in (done ++ [r])) old.
+Proof.
+  intros Ereg Hrs Hold Holder c.
+  destruct (region_set_spec regions Hrs) as [Nreg Preg]. destruct (region_set_spec old Hold) as [Nold Pold].
+  assert (Hr_in : In r regions) by (rewrite Ereg; apply in_or_app; right; left; reflexivity).
+  assert (Hdone_in : forall x, In x done -> In x regions) by (intros x Hx; rewrite Ereg; apply in_or_app; left; exact Hx).
+  assert (Hdone_ne : forall x, In x done -> rid x <> rid r).
+  { intros x Hx E. rewrite Ereg, map_app in Nreg. cbn [map] in Nreg. apply NoDup_remove_2 in Nreg.
+    apply Nreg. apply in_or_app. left. rewrite <- E. apply in_map. exact Hx. }
+  (* an old entry with r's id is an older version of r itself *)
+  assert (Hsame : forall o, In o old -> rid o = rid r ->
+                   same_range (meta o) (meta r) = true /\ m_version (meta o) <= m_version (meta r) /\ m_confver (meta o) <= m_confver (meta r)).
+  { intros o Ho E. destruct (Holder o Ho) as (r' & Hr' & Eid & Hsr & Hv & Hc).
+    assert (r' = r).
+    { destruct (Z.eq_dec (rid r') (rid r)) as [E2|E2]; [|congruence].
+      clear - Nreg Hr' Hr_in E2. induction regions as [|x l IH]; [contradiction|].
+      cbn [map] in Nreg. inversion Nreg as [|? ? Hnot Hn]; subst.
+      destruct Hr' as [<-|Hr']; destruct Hr_in as [<-|Hr_in]; auto.
+      - exfalso. apply Hnot. rewrite E2. apply in_map. exact Hr_in.
+      - exfalso. apply Hnot. rewrite <- E2. apply in_map. exact Hr'. }
+    subst r'. auto. }
+  (* everything in the cache with another id does not intersect r *)
+  assert (Hdis : forall x, In x c -> rid x <> rid r -> intersects (meta x) (meta r) = false).
+  { intros x Hx Hne. unfold c in Hx. apply in_app_or in Hx as [Hx|Hx].
+    - apply in_rev in Hx. apply Preg; auto.
+    - apply filter_In in Hx as [Hx _]. destruct (Holder x Hx) as (r' & Hr' & Eid & Hsr & _ & _).
+      rewrite (proj1 (intersects_same_range (meta x) (meta r') (meta r) Hsr)). apply Preg; auto. congruence. }
+  assert (Hacc : accepts c r = true).
+  { unfold accepts. destruct (find_id c (m_id (meta r))) as [o|] eqn:Ef.
+    - unfold find_id in Ef. apply find_some in Ef as [Ho Eo]. apply Z.eqb_eq in Eo.
+      assert (Ho_old : In o old).
+      { unfold c in Ho. apply in_app_or in Ho as [Ho|Ho]; [|apply filter_In in Ho as [Ho _]; exact Ho].
+        apply in_rev in Ho. exfalso. exact (Hdone_ne o Ho Eo). }
+      destruct (Hsame o Ho_old Eo) as (Hsr & Hv & Hc). rewrite Hsr. cbn [existsb].
+      apply negb_true_iff. apply orb_false_iff. split; lia.
+    - rewrite filter_none; [reflexivity|].
+      intros x Hx. apply Hdis; [exact Hx|]. intros E.
+      unfold find_id in Ef. apply (find_none _ _ Ef) in Hx. apply Z.eqb_neq in Hx. exact (Hx E). }
+  unfold check_and_put. rewrite Hacc. unfold put.
+  assert (Hfilter : filter (fun o => negb (m_id (meta o) =? m_id (meta r)) && negb (intersects (meta o) (meta r))) c =
+                    rev done ++ filter (not_in (done ++ [r])) old).
+  { unfold c. rewrite filter_app. f_equal.
+    - (* done regions are all kept *)
+      assert (G : forall l, (forall x, In x l -> In x done) ->
+                filter (fun o => negb (m_id (meta o) =? m_id (meta r)) && negb (intersects (meta o) (meta r))) l = l).
+      { induction l as [|x l IHl]; intros Hl; cbn [filter]; [reflexivity|].
+        assert (Hx : In x done) by (apply Hl; left; reflexivity).
+        replace (m_id (meta x) =? m_id (meta r)) with false by (symmetry; apply Z.eqb_neq; apply (Hdone_ne x Hx)).
+        rewrite (Preg x r (Hdone_in x Hx) Hr_in (Hdone_ne x Hx)). cbn. f_equal. apply IHl. intros y Hy. apply Hl. right. exact Hy. }
+      apply G. intros x Hx. apply in_rev. exact Hx.
+    - (* old entries: exactly those with r's id go *)
+      clear Hacc. induction old as [|o old' IHo]; cbn [filter]; [reflexivity|].
+      assert (IH' : filter (fun o0 => negb (m_id (meta o0) =? m_id (meta r)) && negb (intersects (meta o0) (meta r))) (filter (not_in done) old') =
+                    filter (not_in (done ++ [r])) old').
+      { apply IHo.
+        - destruct Hold as [_ H]. exact H.
+        - intros x Hx. apply Holder. right. exact Hx.
+        - cbn [map] in Nold. inversion Nold; assumption.
+        - intros a b Ha Hb. apply Pold; right; assumption.
+        - intros x Hx. apply Hsame. right. exact Hx.
+        - intros x Hx. apply Hdis. unfold c in *. apply in_app_or in Hx as [Hx|Hx]; apply in_or_app; [left; exact Hx|right].
+          apply filter_In in Hx as [Hx Hf]. apply filter_In. split; [right; exact Hx|exact Hf]. }
+      unfold not_in at 1 3. rewrite existsb_app. cbn [existsb]. rewrite orb_false_r.
+      destruct (existsb (fun d => rid d =? rid o) done) eqn:Ed; cbn [negb orb].
+      + exact IH'.
+      + cbn [filter]. fold (rid o) (rid r).
+        destruct (rid r =? rid o) eqn:Er.
+        * apply Z.eqb_eq in Er. replace (rid o =? rid r) with true by (symmetry; lia). cbn [negb andb]. exact IH'.
+        * apply Z.eqb_neq in Er. replace (rid o =? rid r) with false by (symmetry; lia). cbn [negb andb].
+          rewrite Hdis; [cbn [negb]; f_equal; exact IH'| |congruence].
+          unfold c. apply in_or_app. right. apply filter_In. split; [left; reflexivity|].
+          unfold not_in. rewrite Ed. reflexivity. }
+  rewrite Hfilter. rewrite rev_app_distr. cbn [rev app]. reflexivity.
+Qed.
+
+Lemma stale_cache_fold regions old : region_set regions -> region_set old -> older_versions old regions ->
+  forall rest done, regions = done ++ rest ->
+    fold_left check_and_put rest (rev done ++ filter (not_in done) old) =
+    rev regions ++ filter (not_in regions) old.
+Proof.
+  intros Hrs Hold Holder. induction rest as [|r rest IH]; intros done E; cbn [fold_left].
+  - rewrite app_nil_r in E. subst done. reflexivity.
+  - rewrite (stale_cache_step regions old done r rest E Hrs Hold Holder).
+    apply IH. rewrite <- app_assoc. exact E.
+Qed.
+
+Lemma find_id_app l1 l2 id : find_id (l1 ++ l2) id = match find_id l1 id with Some x => Some x | None => find_id l2 id end.
+Proof.
+  unfold find_id. induction l1 as [|x l1 IH]; cbn [app find]; [reflexivity|].
+  destruct (m_id (meta x) =? id); [reflexivity|exact IH].
+Qed.
+
+Theorem full_sync_over_stale_cache_pf trunc batch cap kv regions old :
+  all_truncated trunc -> region_set regions -> leaders_valid regions ->
+  older_versions old regions -> region_set old ->
+  let f0 := finit cap kv in
+  let f := fold_left apply_msg (full_sync trunc batch regions) (FS old (f_saved f0) (f_hist f0)) in
+  forall r, In r regions -> find_id (f_cache f) (m_id (meta r)) = Some r.
+Proof.
+  intros Ht Hrs Hv Holder Hold f0 f r Hin. unfold f.
+  rewrite cache_apply_msgs. cbn [f_cache].
+  rewrite full_sync_decodes_all_truncated by exact Ht. rewrite map_norm_valid by exact Hv.
+  pose proof (stale_cache_fold regions old Hrs Hold Holder regions [] eq_refl) as F.
+  cbn [rev app] in F.
+  assert (Eold : filter (not_in []) old = old).
+  { clear. induction old as [|o l IH]; cbn; [reflexivity|]. f_equal. exact IH. }
+  rewrite Eold in F. rewrite F. rewrite find_id_app. rewrite (find_id_in_set regions r Hrs Hin). reflexivity.
+Qed.
